@@ -1586,6 +1586,8 @@ impl Writer {
       }
       Some(bad_policy_id) => {
         // QoS not compliant :(
+        // A reader that was matched before and has changed its QoS no longer is.
+        self.reader_lost(reader_proxy.remote_reader_guid);
         warn!(
           "update_reader_proxy - QoS mismatch {:?} topic={:?}",
           bad_policy_id,
